@@ -1027,6 +1027,42 @@ Proof.
 Qed.
 
 (* ---------- the statements as exported to Props/C18.v: the AEAD laws bundled as one premise ---------- *)
+(* ---------- reflection: an endpoint's own record played back into its incoming stream ---------- *)
+Section Reflect.
+Variable key : Type.
+Variable seal : key -> N -> bytes -> bytes.
+Variable open : key -> N -> bytes -> option bytes.
+Hypothesis open_auth : forall k n c p, open k n c = Some p -> c = seal k n p.
+(* key separation of the idealised AEAD: what was sealed under one key is not a valid box under another *)
+Hypothesis seal_key_sep : forall k n p k' n' p', seal k n p = seal k' n' p' -> k = k'.
+
+(* whatever the counters are (in particular when the receive counter equals the counter the record was sealed with,
+   as after a symmetric exchange): a cipher whose two directions use different keys rejects its own records *)
+Theorem reflection_rejected (c : cipher key) n pt :
+  c_ek c <> c_dk c -> forall p c', decrypt key open c (seal (c_ek c) n pt) <> DcOk p c'.
+Proof.
+  intros Hk p c' H. unfold decrypt in H.
+  destruct (len (seal (c_ek c) n pt) <? TAG); [discriminate|].
+  destruct (c_kind c).
+  - destruct (open (c_dk c) (c_rn c) (seal (c_ek c) n pt)) as [q|] eqn:Eo; [|discriminate].
+    apply open_auth in Eo. apply seal_key_sep in Eo. congruence.
+  - destruct (ctr_ok (c_rn c)); [|discriminate].
+    destruct (open (c_dk c) (c_rn c) (seal (c_ek c) n pt)) as [q|] eqn:Eo; [|discriminate].
+    apply open_auth in Eo. apply seal_key_sep in Eo. congruence.
+Qed.
+(* ... and one key for both directions (with the shared nonce prefix and aligned counters) accepts them *)
+Hypothesis open_seal : forall k n p, open k n (seal k n p) = Some p.
+Hypothesis seal_len : forall k n p, len (seal k n p) = len p + TAG.
+Theorem reflection_accepted_with_one_key_refuted (c : cipher key) pt :
+  c_kind c = KCurve -> c_ek c = c_dk c -> ctr_ok (c_rn c) = true ->
+  decrypt key open c (seal (c_ek c) (c_rn c) pt) = DcOk pt (set_rn c (c_rn c + 1)).
+Proof.
+  intros Hkd Hk Hc. unfold decrypt. rewrite seal_len.
+  assert (len pt + TAG <? TAG = false) as -> by (unfold TAG; lia).
+  rewrite Hkd, <- Hk, open_seal, Hc. reflexivity.
+Qed.
+End Reflect.
+
 Definition ideal_aead {key : Type} (seal : key -> N -> bytes -> bytes) (open : key -> N -> bytes -> option bytes) : Prop :=
   (forall k n p, open k n (seal k n p) = Some p) /\
   (forall k n c p, open k n c = Some p -> c = seal k n p) /\
